@@ -100,6 +100,63 @@ fn far_future_mtime(report: &mut Report) {
     }
 }
 
+/// Directed, real code + the property's oracle: owner and group are recorded and restored INDEPENDENTLY.  A uid
+/// without a passwd entry (a deleted account, a container volume) is recorded as no user; the group of the same
+/// entry is a named one and must come back, and the other way round — for files, directories and symlinks.
+/// Needs the privilege to chown; skipped (with a hit) otherwise.
+fn half_named_owner(report: &mut Report) {
+    use std::os::unix::fs::MetadataExt;
+    let work = tempfile::tempdir().expect("tempdir");
+    let (src, arch, dest) = (work.path().join("src"), work.path().join("arch"), work.path().join("dest"));
+    std::fs::create_dir(&src).unwrap();
+    let nameless: u32 = 54321;
+    if crate::treespec::user_name(nameless).is_some() || crate::treespec::group_name(nameless).is_some() || crate::treespec::user_name(1).is_none() || crate::treespec::group_name(1).is_none() {
+        report.hit("half-named-owner:ids-not-as-assumed");
+        return;
+    }
+    let cases: &[(&str, u32, u32)] = &[("nameless-user-named-group", nameless, 1), ("named-user-nameless-group", 1, nameless), ("both-nameless", nameless, nameless), ("both-named", 2, 1)];
+    for (n, u, g) in cases {
+        std::fs::write(src.join(format!("f-{n}")), n.as_bytes()).unwrap();
+        std::fs::create_dir(src.join(format!("d-{n}"))).unwrap();
+        std::os::unix::fs::symlink("somewhere", src.join(format!("l-{n}"))).unwrap();
+        for k in ["f", "d", "l"] {
+            if std::os::unix::fs::lchown(src.join(format!("{k}-{n}")), Some(*u), Some(*g)).is_err() {
+                report.hit("half-named-owner:no-chown-privilege");
+                return;
+            }
+        }
+    }
+    create_archive(&arch);
+    let r = real_backup(&arch, &src, &BackupParams::default(), IceptConfig::default());
+    let rr = real_restore(&arch, &dest, &RestoreParams { sel: Sel::Latest, subtree: None, exclude: vec![], overwrite: false }, IceptConfig::default());
+    report.case("half-named-owner", true);
+    report.hit("directed:half-named-owner");
+    let case = json!({"directed": "entries owned by a uid / gid without a name next to a named gid / uid"});
+    if !r.result.starts_with("result ok") || !rr.result.starts_with("result ok") || !rr.events.is_empty() {
+        report.oracle_fail("restore-not-clean-half-named-owner", case, "backup or restore of entries with a nameless uid or gid did not succeed cleanly", json!({"backup": trunc(&r.result), "restore": trunc(&rr.result), "events": rr.events.iter().take(3).collect::<Vec<_>>()}));
+        return;
+    }
+    let me = (unsafe_getuid(), unsafe_getgid());
+    for (n, u, g) in cases {
+        for k in ["f", "d", "l"] {
+            let md = std::fs::symlink_metadata(dest.join(format!("{k}-{n}"))).unwrap();
+            // a half that has a name comes back; a nameless half is whatever the restoring user creates
+            let want = (if *u == nameless { me.0 } else { *u }, if *g == nameless { me.1 } else { *g });
+            if (md.uid(), md.gid()) != want {
+                report.oracle_fail("restored-owner-differs-half-named", case.clone(), "the named half of an entry's ownership was not restored because the other half has no name", json!({"entry": format!("{k}-{n}"), "source": [u, g], "restored": [md.uid(), md.gid()], "expected": [want.0, want.1]}));
+            }
+        }
+    }
+}
+
+fn unsafe_getuid() -> u32 {
+    std::fs::metadata("/proc/self").map(|m| std::os::unix::fs::MetadataExt::uid(&m)).unwrap_or(0)
+}
+
+fn unsafe_getgid() -> u32 {
+    std::fs::metadata("/proc/self").map(|m| std::os::unix::fs::MetadataExt::gid(&m)).unwrap_or(0)
+}
+
 /// Directed, real code + oracle only (no model run: the byte-list model is not meant for megabytes): sizes and
 /// shapes the random generator never reaches — files of several MiB around block-size multiples with default-like
 /// options, a 255-byte name, forty levels of nesting, a directory with 3000 entries.
@@ -164,6 +221,7 @@ fn large_scale(seed: u64, defaults: bool, report: &mut Report) {
 pub fn run(tier: &str, seed: u64, report: &mut Report) {
     let thorough = tier == "thorough";
     far_future_mtime(report);
+    half_named_owner(report);
     large_scale(seed, false, report);
     large_scale(seed, true, report);
     let n_cases = if thorough { 1500 } else { 120 };
